@@ -201,7 +201,10 @@ impl Directive {
             Directive::Equ => {
                 if let DirectiveOps::Assign(name, value) = opts {
                     if let Expr::Ident(name) = name {
-                        context.common_context.set_equ(name.clone(), value.clone());
+                        let previous = context.common_context.set_equ(name.clone(), value.clone());
+                        if previous.is_some() {
+                            bail!("Identifier {} is used twice, {}", name, point);
+                        }
                     }
                 } else {
                     bail!("wrong format for .equ, expected: {} in {}", opts, point,);
